@@ -10,10 +10,24 @@ use crate::vx_utf8::*;
 //@]
 use crate::data::IndexUpdater;
 
-//@[ T: iterator adapters outside the supported subset (body not verified; contract assumed)
+//@[ C17 ghost: the updater is a bijection that sends every old position to the position of the same element
+pub open spec fn is_index_map<T>(pi: Seq<usize>, old_s: Seq<T>, new_s: Seq<T>) -> bool {
+    &&& pi.len() == old_s.len() && new_s.len() == old_s.len()
+    &&& forall|i: int| 0 <= i < pi.len() ==> (#[trigger] pi[i]) < new_s.len() && new_s[pi[i] as int] == old_s[i]
+    &&& forall|i: int, j: int| 0 <= i < j < pi.len() ==> #[trigger] pi[i] != #[trigger] pi[j]
+    &&& forall|a: int| 0 <= a < new_s.len() ==> #[trigger] hit(pi, a)
+}
+pub open spec fn hit(pi: Seq<usize>, a: int) -> bool { exists|i: int| 0 <= i < pi.len() && #[trigger] pi[i] == a }
+//@]
+
+//@[ T: enumerate / sort_by / sort_by_key / tuple-pattern closures are outside the supported subset (bodies of this file not verified; contract assumed)
 #[verifier::external_body]
 //@]
-pub fn sort_and_get_index_updater<T: Ord>(v: Vec<T>) -> (Vec<T>, IndexUpdater) {
+pub fn sort_and_get_index_updater<T: Ord>(v: Vec<T>) -> /*@[*/(r: /*@]*/(Vec<T>, IndexUpdater)/*@[*/)/*@]*/
+    //@[ C17 C14 assumed contract: the elements in non-decreasing order and the bijection old index -> new index
+    ensures lawful::<T>() ==> sorted_le(r.0@) && is_index_map(r.1@, v@, r.0@),
+    //@]
+{
     let indexed = get_sorted_indexed(v);
     let updater = get_index_updater(&indexed);
     let sorted = indexed.into_iter().map(|(_, item)| item).collect();
